@@ -59,7 +59,13 @@ fn strat(tier: Tier) -> BoxedStrategy<Case> {
 
 fn oracle(c: &Case, st: &mut Stats) -> Result<(), String> {
   let t = c.t.max(1);
-  let n = t as usize + idx(c.extra, t as usize + 1);
+  // now and then a large collection (sizes around powers of two), at small thresholds only
+  let n = if c.extra % 61 == 7 && t <= 8 {
+    st.class("large-collection(255..2049 reports)");
+    (t as usize).max([255usize, 256, 257, 1023, 1024, 1025, 2049][(c.extra / 61) as usize % 7])
+  } else {
+    t as usize + idx(c.extra, t as usize + 1)
+  };
   let g = if c.reassign_x {
     // a client object that is reused: built for another measurement, then pointed at this one
     let mut other = c.m.0.clone();
